@@ -229,6 +229,11 @@ def sibling(check, proj):
 
 
 def body(check):
+    from ..disc1d import over_cond_paths
+    over_cond_paths(check, _body_paths)
+
+
+def _body_paths(check):
     proj = check.proj
     check.explanation = ("static analysis: the slice code of fvm1d (gradients, periodic closure, calc_bc, calc_res), mesh1d "
                          "(centres, volumes) and every 1D reconstruction is decoded by the access-relation engine (STN) into "
